@@ -867,6 +867,14 @@ impl TransportManager {
                 ?error,
                 "connection limit exceeded, rejecting connection",
             );
+
+            // If this was an outbound connection, the dial attempt has concluded. Clear the dial
+            // record, otherwise the peer remains in a dialing state for a connection that no
+            // longer exists and can never be dialed again.
+            if let Some(context) = self.peers.write().get_mut(&peer) {
+                context.state.on_dial_failure(endpoint.connection_id());
+            }
+
             return Ok(ConnectionEstablishedResult::Reject);
         }
 
